@@ -415,3 +415,46 @@ Theorem versioning_off_writes_nothing g s objs ents assoc :
   let s' := flush g s objs ents assoc in
   d_vt (s_db s') = d_vt (s_db s) /\ d_av (s_db s') = d_av (s_db s) /\ d_tx (s_db s') = d_tx (s_db s).
 Proof. intro Hv. destruct (flush_off g s objs ents assoc Hv) as [E1 [E2 [E3 _]]]. auto. Qed.
+
+(* ------------------------------------------------------------------ transaction_changes (C17) *)
+Lemma add_changes_spec T ops : forall chg x,
+  In x (add_changes T chg ops) <->
+  In x chg \/ (fst x = T /\ exists o, In o ops /\ op_cls o = snd x).
+Proof.
+  induction ops as [|o ops IH]; intros chg x; simpl.
+  - split; [auto | intros [H|[_ [o [[] _]]]]; exact H].
+  - rewrite IH. clear IH.
+    destruct (existsb (fun y => (fst y =? T) && (snd y =? op_cls o)%nat) chg) eqn:E.
+    + split.
+      * intros [H|[H1 [o' [Ho' H2]]]]; [auto|]. right. split; [exact H1|]. exists o'. auto.
+      * intros [H|[H1 [o' [[<-|Ho'] H2]]]]; [auto| |].
+        -- left. apply existsb_exists in E as [y [Hy Ey]]. apply andb_true_iff in Ey as [E1 E2].
+           apply Z.eqb_eq in E1. apply Nat.eqb_eq in E2. destruct x as [a b], y as [a' b']. simpl in *.
+           subst. exact Hy.
+        -- right. split; [exact H1|]. exists o'. auto.
+    + split.
+      * intros [H|[H1 [o' [Ho' H2]]]].
+        -- apply in_app_or in H as [H|[<-|[]]]; [auto|]. right. simpl. split; [reflexivity|].
+           exists o. auto.
+        -- right. split; [exact H1|]. exists o'. auto.
+      * intros [H|[H1 [o' [[<-|Ho'] H2]]]].
+        -- left. apply in_or_app. left. exact H.
+        -- left. apply in_or_app. right. left. destruct x as [a b]. simpl in *. subst. reflexivity.
+        -- right. split; [exact H1|]. exists o'. auto.
+Qed.
+
+Lemma add_changes_nodup T ops : forall chg, NoDup chg -> NoDup (add_changes T chg ops).
+Proof.
+  induction ops as [|o ops IH]; intros chg ND; simpl; [exact ND|].
+  apply IH. destruct (existsb (fun y => (fst y =? T) && (snd y =? op_cls o)%nat) chg) eqn:E; [exact ND|].
+  assert (Hn : ~ In (T, op_cls o) chg).
+  { intro H. assert (existsb (fun y => (fst y =? T) && (snd y =? op_cls o)%nat) chg = true).
+    { apply existsb_exists. exists (T, op_cls o). split; [exact H|]. simpl.
+      rewrite Z.eqb_refl, Nat.eqb_refl. reflexivity. }
+    congruence. }
+  clear E. induction chg as [|a l IHl]; simpl.
+  - constructor; [intros []|constructor].
+  - inversion ND as [|? ? Ha ND']; subst. constructor.
+    + intro H. apply in_app_or in H as [H|[<-|[]]]; [contradiction|]. apply Hn. left; reflexivity.
+    + apply IHl; [exact ND'|]. intro H. apply Hn. right; exact H.
+Qed.
